@@ -22,13 +22,16 @@ from ..tree import enumerate_trees, pack_trees
 INPUTS: dict[str, tuple[dict[str, str], str]] = {
     "T1-two-equal-depth-reexporters": (
         {
+            # (the defining module lies one level deeper than the two re-exporters: a class is only moved to - and imported
+            # from - a re-exporting package whose path is shorter than the module's)
             "pk/__init__.py": "",
-            "pk/_core.py": "class Thing:\n    def m(self) -> int:\n        return 1\n\n\ndef tool(a: int) -> int:\n    return a\n",
-            "pk/p1/__init__.py": "from pk._core import Thing as Alpha\nfrom pk._core import tool as t_one\n",
-            "pk/p2/__init__.py": "from pk._core import Thing as Beta\nfrom pk._core import tool as t_two\n",
+            "pk/impl/__init__.py": "",
+            "pk/impl/_core.py": "class Thing:\n    def m(self) -> int:\n        return 1\n\n\ndef tool(a: int) -> int:\n    return a\n",
+            "pk/p1/__init__.py": "from pk.impl._core import Thing as Alpha\nfrom pk.impl._core import tool as t_one\n",
+            "pk/p2/__init__.py": "from pk.impl._core import Thing as Beta\nfrom pk.impl._core import tool as t_two\n",
             "pk/p1/x1.py": "def one() -> int:\n    return 1\n",
             "pk/p2/x2.py": "def two() -> int:\n    return 2\n",
-            "pk/user.py": "from pk._core import Thing\n\n\ndef use(t: Thing) -> Thing:\n    return t\n\n\nclass Sub(Thing):\n    def own(self) -> int:\n        return 1\n",
+            "pk/user.py": "from pk.impl._core import Thing\n\n\ndef use(t: Thing) -> Thing:\n    return t\n\n\nclass Sub(Thing):\n    def own(self) -> int:\n        return 1\n",
         },
         "pk",
     ),
